@@ -41,7 +41,9 @@ def gen_workload(rng, tier, big=False):
     q = select_all(t)
     for round_ in range(rng.choice([4, 6, 8])):
         r = rng.random()
-        if r < 0.45:
+        if r < 0.45 and nid[0] <= 180:
+            # at most ~240 rows per table: every inserted row adds a version to the table's catalog row and a row holds
+            # at most 255 versions (recorded finding C16-catalog-row-version-overflow)
             rs = rows(rng.choice([5, 10, 25, 60]))
             h.x(G.insert_sql(t, rs), G.insert_coq(t, rs), sorted_=True)
         elif r < 0.6:
